@@ -78,6 +78,10 @@ def _name_rewrites(ctx, ci):
                     out.append(('guarded', v.left.value, guard))
                 elif isinstance(v, ast.Constant) and isinstance(v.value, str):
                     out.append(('add', {v.value}))
+                elif isinstance(v, ast.IfExp) and all(
+                        isinstance(x, ast.Constant) and isinstance(x.value, str)
+                        for x in (v.body, v.orelse)):
+                    out.append(('add', {v.body.value, v.orelse.value}))
                 else:
                     raise AnalysisError('%s: unrecognised name rewrite `%s`' % (
                         m.fq, ast.unparse(n)))
